@@ -417,4 +417,10 @@ def install(lib, np_):
 
   @ext(['scipy.linalg.eigh'], 'ASSUMED: as numpy.linalg.eigh (standard problem) ; generalised problem when b is given')
   def _seigh(cx, a, b=None, **kw):
+    if b is not None and not isinstance(b, VNone):
+      # generalised problem a v = lambda b v: the eigenpairs are those of the PENCIL, not of a (no spectral facts about a are assumed)
+      st = cx.st(a)
+      n = st.shape.dims[0]
+      cx.may_raise('LinAlgError', None, 'generalised eigenproblem: b is not positive definite / no convergence')
+      return VTuple([cx.new(fresh('geigvals', T), [n], 'f'), cx.new(fresh('geigvecs', T), [n, n], 'f')])
     return eigh_core(cx, a)
